@@ -86,6 +86,15 @@ Theorem C12_retry_after_respected : forall dinit dmax limit s r now ra now2, (0 
 Proof. exact retry_after_respected. Qed.
 Print Assumptions C12_retry_after_respected.
 
+(* hosts that are currently backing off come after the others: for EVERY host set, priorities and release times, the
+   order in which sortHostsCmp offers the hosts is a block of hosts that are not waiting followed by a block of hosts
+   whose release time lies in the future *)
+Theorem C12_backing_off_hosts_last : forall now l, exists ready waiting_hosts,
+  sort_bhosts now l = ready ++ waiting_hosts /\
+  Forall (fun h => waiting now h = false) ready /\ Forall (fun h => waiting now h = true) waiting_hosts.
+Proof. intros now l. destruct (waiting_hosts_last now l) as (a & b & H). exists a, b. exact H. Qed.
+Print Assumptions C12_backing_off_hosts_last.
+
 (* a concrete series (delays 1 and 8, limit 5): requests at 0, released at 2, then (after a slow failure at 50) at 50,
    then at 58 - the spacing is counted from the previous request, NOT from the failure: the third request leaves at the
    very clock reading of the second failure.  A reading of the property that counts the delay from the failure is
